@@ -81,6 +81,8 @@ _QUICK_FLOORS = {
     "spelling:grid_projection=partial_two_arguments": 80, "spelling:scatter_projection=lambda_two_arguments": 30,
     "spelling:scatter_projection=function_two_arguments": 30, "spelling:scatter_projection=partial_two_arguments": 20,
     # calls that rely on the documented defaults
+    "defaulted_argument:BaseGridder.scatter.random_state": 30, "defaulted_argument:CheckerBoard.scatter.random_state": 3,
+    "defaulted_argument:BaseGridder.scatter.size": 15, "defaulted_argument:BaseGridder.grid.region": 400,
     "eval:defaults_as_documented": 60, "eval:signature_defaults": 24, "class:defaults_scatter_without_any_argument": 16,
     "class:defaults_scatter_size_only": 8, "class:defaults_grid_shape_only": 8, "class:defaults_grid_spacing_only": 8,
     "class:defaults_profile_positional_only": 8, "class:defaults_gridder=CheckerBoard": 1, "class:defaults_gridder=Spline": 1,
@@ -740,9 +742,10 @@ def install(tap, run):
             witness["result"] = table
             run.violation(monitor, problem, witness, key="scatter:" + problem.split(" ")[0])
 
-    tap.method(BaseGridder, "grid", post=post_grid, pre=pre_defaults)
-    tap.method(BaseGridder, "profile", post=post_profile, pre=pre_defaults)
-    tap.method(BaseGridder, "scatter", post=post_scatter, pre=pre_scatter)
+    # arguments the caller leaves out are judged by their DOCUMENTED defaults, not by the signature of the tree under test
+    tap.method(BaseGridder, "grid", post=post_grid, pre=pre_defaults, documented=dict(DOCUMENTED_DEFAULTS["grid"]))
+    tap.method(BaseGridder, "profile", post=post_profile, pre=pre_defaults, documented=dict(DOCUMENTED_DEFAULTS["profile"]))
+    tap.method(BaseGridder, "scatter", post=post_scatter, pre=pre_scatter, documented=dict(DOCUMENTED_DEFAULTS["scatter"]))
     if "scatter" not in vars(verde.synthetic.CheckerBoard):  # pragma: no cover - the override disappeared
         run.note_inconclusive("CheckerBoard no longer overrides scatter")
 
